@@ -54,6 +54,11 @@ def packets():
         for k, name in NAMES.items():
             ev[f"claim_{k}{s}"] = wire.claim_packet(s, name)
         ev[f"d{s}"] = wire.ebyte_packet(wire.can_id(2, 127250, s, 255), bytes([s]) + bytes.fromhex("10270000ff7ffd"))
+        # the same data through the text entry points, stamped by the gateway far away from the decoder's own clock
+        # (an Actisense gateway up for two days, a log line dated 2099): the discovery window is the decoder's, not the message's
+        hd = bytes([s]) + bytes.fromhex("10270000ff7ffd")
+        ev[f"dA{s}"] = ("actisense", wire.actisense_line(2, 255, s, 127250, hd, ts="A173321.107"))
+        ev[f"dP{s}"] = ("plain", wire.plain_line(2, 127250, s, 255, hd, ts="2099-01-01-12:00:00.000"))
         fr = wire.fast_frames(2 + s, bytes([0x02, 0x00]) + bytes(range(20 + s, 27 + s)))
         ident = wire.can_id(3, 130816, s, 255)
         ev[f"f0_{s}"] = wire.ebyte_packet(ident, fr[0])
@@ -113,7 +118,10 @@ def run_config(args):
     def step(s, ev):
         src = int(ev[-1])
         try:
-            m = s.dec.decode_tcp(pk[ev])
+            if isinstance(pk[ev], tuple):
+                m = (s.dec.decode_actisense_string if pk[ev][0] == "actisense" else s.dec.decode_basic_string)(pk[ev][1])
+            else:
+                m = s.dec.decode_tcp(pk[ev])
         except Exception as ex:  # noqa: BLE001
             return [viol("decoder_raises", ev, f"{type(ex).__name__}: {ex}")]
         other = [x for x in SOURCES if x != src][0]
